@@ -4,7 +4,6 @@ package nack
 
 import (
 	"encoding/json"
-	"errors"
 	"sync"
 	"testing"
 	"time"
@@ -41,7 +40,7 @@ type vfRespScript struct {
 	} `json:"steps"`
 }
 
-var errVfRespInjected = errors.New("injected RTP write failure") //nolint:gochecknoglobals
+var errVfRespInjected error = vfInjErr{"injected RTP write failure"} //nolint:gochecknoglobals
 
 type vfJob struct {
 	failNext   bool
